@@ -1,11 +1,11 @@
 package mc
 
 import (
-	"strconv"
 	"encoding/json"
 	"fmt"
 	"os"
 	"sort"
+	"strconv"
 	"sync"
 	"sync/atomic"
 	"time"
